@@ -7,31 +7,49 @@
 (*                  locks (refreshed exactly by `locks --verify`)          *)
 (*   writable[u][p] write bit of the lockable file p in u's work tree      *)
 (*   dirty[u][p]    p has uncommitted changes in u's work tree             *)
+(*   order          the locked paths in the order the server lists them    *)
+(*   page           how many locks the server puts on one page of a lock   *)
+(*                  list / verify answer (0: all of them); fixed per run   *)
 (* Each action is one command (or hook run) of one user; the log carries   *)
 (* what the property demands to be observable afterwards.                  *)
+(* `locks --verify` and the pre-push verification walk the pages of the    *)
+(* server's answer (locking.SearchLocksVerifiable: clear the cache once,   *)
+(* then add the own locks of every page); ClearPerPage = TRUE is the       *)
+(* variant that clears the cache for every page and must violate           *)
+(* FreshAfterVerify.                                                       *)
 (***************************************************************************)
 EXTENDS Integers, Sequences, FiniteSets, TLC, Json, CSV, IOUtils
 
-CONSTANTS Users, Paths, MaxOps, Emit
+CONSTANTS Users, Paths, MaxOps, Emit, PageSizes, ClearPerPage
 
-VARIABLES server, cache, writable, dirty, nops, done, hist
-vars == <<server, cache, writable, dirty, nops, done, hist>>
-View == <<server, cache, writable, dirty, done>>
+VARIABLES server, order, page, cache, writable, dirty, nops, done, hist
+vars == <<server, order, page, cache, writable, dirty, nops, done, hist>>
+View == <<server, order, page, cache, writable, dirty, done>>
 
 Own(u) == {p \in Paths : server[p] = u}
 
-Init == /\ server = [p \in Paths |-> "none"]
+\* the pages of a lock listing
+Min(a, b) == IF a < b THEN a ELSE b
+NPages == IF page = 0 \/ order = <<>> THEN 1 ELSE (Len(order) + page - 1) \div page
+PageAt(i) == IF page = 0 THEN order ELSE SubSeq(order, (i - 1) * page + 1, Min(i * page, Len(order)))
+OursOn(u, i) == {PageAt(i)[k] : k \in DOMAIN PageAt(i)} \cap Own(u)
+\* what the walk over the pages leaves in the cache of own locks
+Walk(u) == IF ClearPerPage THEN OursOn(u, NPages) ELSE UNION {OursOn(u, i) : i \in 1..NPages}
+Without(s, p) == SelectSeq(s, LAMBDA x : x # p)
+
+Init == /\ server = [p \in Paths |-> "none"] /\ order = <<>> /\ page \in PageSizes
         /\ cache = [u \in Users |-> {}]
         /\ writable = [u \in Users |-> [p \in Paths |-> FALSE]]     \* lockable files start read-only
         /\ dirty = [u \in Users |-> [p \in Paths |-> FALSE]]
         /\ nops = 0 /\ done = FALSE /\ hist = <<>>
 
-Log(r) == /\ ~done /\ nops < MaxOps /\ nops' = nops + 1
-          /\ hist' = Append(hist, r)
+Log(r) == /\ ~done /\ nops < MaxOps /\ nops' = nops + 1 /\ page' = page
+          /\ hist' = Append(hist, r @@ [page |-> page])
 
 Lock(u, p) ==
   LET ok == server[p] = "none" IN
   /\ server' = IF ok THEN [server EXCEPT ![p] = u] ELSE server
+  /\ order' = IF ok THEN Append(order, p) ELSE order
   /\ cache' = IF ok THEN [cache EXCEPT ![u] = @ \cup {p}] ELSE cache
   /\ writable' = IF ok THEN [writable EXCEPT ![u][p] = TRUE] ELSE writable
   /\ UNCHANGED <<dirty, done>>
@@ -44,6 +62,7 @@ Unlock(u, p, force, byid) ==
   LET ok == server[p] # "none" /\ (force \/ (server[p] = u /\ ~dirty[u][p])) IN
   /\ server[p] # "none"
   /\ server' = IF ok THEN [server EXCEPT ![p] = "none"] ELSE server
+  /\ order' = IF ok THEN Without(order, p) ELSE order
   \* releasing one's own lock removes it from the cache; breaking somebody else's lock says nothing
   \* about an older (stale) entry of one's own for the same path
   /\ cache' = IF ok /\ server[p] = u THEN [cache EXCEPT ![u] = @ \ {p}] ELSE cache
@@ -54,15 +73,15 @@ Unlock(u, p, force, byid) ==
           writableIs |-> {}, readonlyIs |-> IF ok /\ ~dirty[u][p] THEN {p} ELSE {}, serverAfter |-> server'])
 
 Verify(u) ==         \* git lfs locks --verify : the cache of own locks is refreshed from the server
-  /\ cache' = [cache EXCEPT ![u] = Own(u)]
-  /\ UNCHANGED <<server, writable, dirty, done>>
+  /\ cache' = [cache EXCEPT ![u] = Walk(u)]
+  /\ UNCHANGED <<server, order, writable, dirty, done>>
   /\ Log([a |-> "verify", u |-> u, p |-> "", ok |-> TRUE, force |-> FALSE, byid |-> FALSE,
-          cacheHas |-> {}, cacheLacks |-> {}, cacheExact |-> TRUE, cacheIs |-> Own(u),
+          cacheHas |-> {}, cacheLacks |-> {}, cacheExact |-> TRUE, cacheIs |-> Walk(u),
           writableIs |-> {}, readonlyIs |-> {}, serverAfter |-> server])
 
 Hook(u) ==           \* post-checkout / post-commit / post-merge: write bits follow the cached own locks
   /\ writable' = [writable EXCEPT ![u] = [p \in Paths |-> p \in cache[u] \/ (dirty[u][p] /\ writable[u][p])]]
-  /\ UNCHANGED <<server, cache, dirty, done>>
+  /\ UNCHANGED <<server, order, cache, dirty, done>>
   /\ Log([a |-> "hook", u |-> u, p |-> "", ok |-> TRUE, force |-> FALSE, byid |-> FALSE,
           cacheHas |-> {}, cacheLacks |-> {}, cacheExact |-> FALSE, cacheIs |-> {},
           writableIs |-> cache[u], readonlyIs |-> {p \in Paths : p \notin cache[u]}, serverAfter |-> server])
@@ -70,7 +89,7 @@ Hook(u) ==           \* post-checkout / post-commit / post-merge: write bits fol
 Edit(u, p) ==        \* the user changes a file they may write
   /\ writable[u][p] /\ ~dirty[u][p]
   /\ dirty' = [dirty EXCEPT ![u][p] = TRUE]
-  /\ UNCHANGED <<server, cache, writable, done>>
+  /\ UNCHANGED <<server, order, cache, writable, done>>
   /\ Log([a |-> "edit", u |-> u, p |-> p, ok |-> TRUE, force |-> FALSE, byid |-> FALSE,
           cacheHas |-> {}, cacheLacks |-> {}, cacheExact |-> FALSE, cacheIs |-> {},
           writableIs |-> {}, readonlyIs |-> {}, serverAfter |-> server])
@@ -78,7 +97,7 @@ Edit(u, p) ==        \* the user changes a file they may write
 Push(u, p) ==        \* commit a change to p and push it with lock verification on; ends the behaviour
   LET ok == server[p] \in {"none", u} IN
   /\ done' = TRUE
-  /\ UNCHANGED <<server, cache, writable, dirty>>
+  /\ UNCHANGED <<server, order, cache, writable, dirty>>
   /\ Log([a |-> "push", u |-> u, p |-> p, ok |-> ok, force |-> FALSE, byid |-> FALSE,
           cacheHas |-> {}, cacheLacks |-> {}, cacheExact |-> FALSE, cacheIs |-> {},
           writableIs |-> {}, readonlyIs |-> {}, serverAfter |-> server])
